@@ -38,6 +38,15 @@ impl ByteCompiler<'_> {
                 actions.push(JumpRecordAction::Transfer { index: i as u32 });
                 break;
             }
+
+            // The break leaves this statement for an enclosing labelled one: an iterator loop that is
+            // left this way must close its iterator (ForIn/OfBodyEvaluation: `LoopContinues` is false
+            // -> IteratorClose / AsyncIteratorClose), like `continue L` and `return` already do.
+            if info.iterator_loop() {
+                actions.push(JumpRecordAction::CloseIterator {
+                    r#async: info.for_await_of_loop(),
+                });
+            }
         }
 
         actions.reverse();
